@@ -73,7 +73,11 @@ func main() {
 		}
 	}
 	d.budget = time.Duration(*budgetS) * time.Second
-	os.Exit(d.runCheck(!*noEvidence))
+	rc := d.runCheck(!*noEvidence)
+	if d.prepDir != "" {
+		os.RemoveAll(d.prepDir)
+	}
+	os.Exit(rc)
 }
 
 func isFlagSet(name string) bool {
@@ -381,8 +385,12 @@ func (d *Driver) runCheck(writeEvidence bool) int {
 	for _, n := range hnames {
 		outcomesByHarness[n[strings.LastIndex(n, ".")+1:]] = hs[n].outcomes
 	}
+	level := "model_checking"
+	if d.spec.Level != "" {
+		level = d.spec.Level
+	}
 	ev := &Evidence{
-		PropertyID: id, Tier: d.tier, Seed: d.seed, Level: "model_checking", WallS: wall, Violations: violations,
+		PropertyID: id, Tier: d.tier, Seed: d.seed, Level: level, WallS: wall, Violations: violations,
 		Assumptions: append([]string{}, d.spec.Assumptions...),
 		Coverage: map[string]interface{}{
 			"states":                        max(d.stats.Paths, 0),
@@ -406,6 +414,9 @@ func (d *Driver) runCheck(writeEvidence bool) int {
 			"known_findings_reproduced":     keysOf(knownHits),
 			"problems":                      problems,
 			"jobs":                          len(jobs),
+			"programs":                      len(hs),
+			"disagreements_checked":         d.stats.Asserts,
+			"assertions_evaluated":          d.stats.Asserts,
 			"encoding":                      "regenerated from /repo working tree on this run: go/packages + go/ssa (InstantiateGenerics), harness overlay, SSA interpreted over SMT bit-vector terms",
 		},
 	}
